@@ -14,6 +14,7 @@ mod c16;
 mod c18;
 mod c19;
 mod c20;
+mod c20_text;
 mod cek;
 mod driver;
 mod flatgen;
@@ -23,6 +24,11 @@ mod report;
 mod sx;
 mod tygen;
 mod wire;
+
+/// extra per-sub-command argument `--name value`
+pub fn arg_usize(name: &str, default: usize) -> usize {
+    crate::c03::arg_usize(name, default)
+}
 
 pub struct Ctx {
     pub seed: u64,
@@ -38,6 +44,9 @@ fn main() {
     }
     let sub = args[1].clone();
     // child-process entries (run in a fresh process so that a stack overflow is an observation)
+    if sub == "c20-uplc-text-probe" {
+        c20_text::probe();
+    }
     if sub == "c20-flat-deep" {
         c20::deep_child(args[2].parse().expect("depth"), &args[3]);
     }
@@ -87,6 +96,8 @@ fn main() {
         "c13-roundtrip" => c13::roundtrip(&ctx, &extra),
         "c20-aiken-text" => c13::c20_aiken_text(&ctx, &extra),
         "c20-one" => c13::c20_one(&extra),
+        "c15-text" => c15::text(&ctx),
+        "c20-uplc-text" => c20_text::run(&ctx),
         other => {
             eprintln!("unknown sub-command {other}");
             std::process::exit(2);
